@@ -16,8 +16,8 @@ use crate::runner::ReplayFile;
 use crate::w2::*;
 use crate::{seed_from, Args, Known};
 
-const HANG_S: u64 = 20;
-const HANG_CONFIRM_S: u64 = 60;
+const HANG_S: u64 = 30;
+const HANG_CONFIRM_S: u64 = 90;
 
 fn budget_for(len: usize) -> usize {
     64 * len + (64 << 20)
@@ -88,7 +88,11 @@ pub fn cmd_worker(args: &Args) -> i32 {
         let mut hash_seed_override: Option<u64> = None;
         let bytes = sp.bytes_of(&c);
         let changed = bytes != sp.bases[c.base].bytes || c.faults.iter().any(|f| matches!(f, Fault::Io { .. }));
+        let t_case = Instant::now();
         let (mut v, mut peak) = exec_case(&file, &dir, &bytes, &c, budget_for(bytes.len()));
+        if std::env::var_os("JBSIM_SLOW").is_some() && t_case.elapsed().as_millis() > 100 {
+            eprintln!("SLOW case {} {}ms kind={} bytes={}", idx, t_case.elapsed().as_millis(), c.kind(), bytes.len());
+        }
         // two or more faults in the header: which bad entry is met first depends on the iteration order of
         // the header's hash maps, so explore a few more hash seeds and keep the worst outcome
         let header_faults = c.faults.iter().filter(|f| matches!(f, Fault::Splice { start, .. } if *start < sp.bases[c.base].map.data_start)).count();
@@ -432,6 +436,13 @@ pub fn cmd_w2(args: &Args) -> i32 {
         std::thread::sleep(Duration::from_millis(20));
     }
 
+    if std::env::var_os("JBSIM_SLOW").is_some() {
+        for k in 0..nworkers {
+            for l in std::fs::read_to_string(dir.join(format!("stderr.{}", k))).unwrap_or_default().lines().filter(|l| l.starts_with("SLOW")) {
+                eprintln!("{}", l);
+            }
+        }
+    }
     // --- aggregate
     let mut evaluations = 0u64;
     let mut table: BTreeMap<String, BTreeMap<String, u64>> = BTreeMap::new();
@@ -682,7 +693,7 @@ pub fn cmd_w2(args: &Args) -> i32 {
         .set("stopped_early_after_repeated_aborts_or_hangs", J::Bool(truncated))
         .set("peak_case_allocation_bytes", J::u(maxpeak))
         .set("allocation_budget", J::s("64 x file size + 64 MiB of live heap per case (counting global allocator); a refused request aborts the worker and is attributed by the parent"))
-        .set("hang_rule", J::s("wall clock: no progress for 20 s (normal case < 10 ms), confirmed alone with 60 s"))
+        .set("hang_rule", J::s("wall clock: no progress for 30 s (normal case < 10 ms, slowest stress case ~0.5 s), confirmed alone with 90 s"))
         .set("build_profile", J::s(&profile))
         .set("cases_per_hour", J::u((evaluations as f64 / wall.max(1e-9) * 3600.0) as u64))
         .set("simulated_time", J::s("none: the loader reads no clock"))
